@@ -261,7 +261,7 @@ func (ex *Exec) assignTargets(fc *FuncContract, env *Env) (targets []assignTarge
 				if !isPtr {
 					env.fail("assigns: %s is not a field of a heap object", e)
 				}
-				obj, path, _ := types.LookupFieldOrMethod(base.T, true, env.pkg, x.Name)
+				obj, path, _ := lookupField(base.T, env.pkg, x.Name)
 				if _, ok := obj.(*types.Var); !ok || len(path) != 1 {
 					env.fail("assigns: cannot resolve field %s", e)
 				}
